@@ -193,6 +193,53 @@ def op_div(ctx, rng):
                 return
 
 
+def op_join_many(ctx, rng):
+    """joins of hundreds to thousands of regions (counts at and around powers of two: batching boundaries), as lists and
+    as one-shot generators"""
+    fmt = rand_fmt(rng)
+    n = rng.choice((255, 256, 257, 511, 512, 1000, 1023, 1024, 1025, 2047, 2048, 2049, 3072, 4096))
+    sep = mk(rng, fmt)
+    pool = [mk(rng, fmt) for _ in range(4)]
+    picks = [rng.randrange(4) for _ in range(n)]
+    case = {"op": "join-many", "count": n, "sep": desc(sep), "pool": [desc(r) for r in pool]}
+    ctx.case(repr(("join-many", n, case["sep"])), True)
+    ctx.count("op_join_many")
+    ctx.maxi("regions_in_one_join", n)
+    arg = [pool[k] for k in picks] if rng.random() < 0.5 else (pool[k] for k in picks)
+    res = sep.join(arg)
+    expect(ctx, "join", res, bytes(sep).join(bytes(pool[k]) for k in picks), fmt, case)
+
+
+def op_join_temporaries(ctx, rng):
+    """the regions to join are temporaries produced one at a time (nobody else holds them); somewhere among them one has a
+    different rate / width / channel count: the join must refuse, however many were fine before it and whatever memory the
+    earlier ones have given back in the meantime"""
+    import gc
+
+    fmt = rand_fmt(rng)
+    fmt2, which = other_fmt(rng, fmt)
+    n = rng.choice((50, 300, 700))
+    bad_at = rng.randrange(n // 2, n)
+    sep = mk(rng, fmt)
+    case = {"op": "join-temporaries", "count": n, "bad_at": bad_at, "differs_in": which, "sep": desc(sep)}
+    ctx.case(repr(case), True)
+    ctx.count("op_join_temporaries")
+
+    def items():
+        for i in range(n):
+            if i % 97 == 96:
+                gc.collect()
+            yield mk(rng, fmt2 if i == bad_at else fmt)
+
+    try:
+        res = sep.join(items())
+        ctx.violation(f"mismatched-{which}-combined-without-error", {"case": case, "result": repr(res)[:100]})
+    except AudioParameterError:
+        ctx.count("parameter_errors_observed")
+    except Exception as exc:
+        ctx.violation(f"mismatched-{which}-raises-{type(exc).__name__}", {"case": case, "exception": repr(exc)[:200]})
+
+
 def op_mismatch(ctx, rng):
     fmt = rand_fmt(rng)
     fmt2, which = other_fmt(rng, fmt)
@@ -430,6 +477,10 @@ def run_shard(ctx, upto=None):
     rng = ctx.rng("ops")
     for i in range(conf["random"] if upto is None else upto + 1):
         op = OPS[i % len(OPS)]
+        if i % 40 == 7:
+            op = op_join_many
+        elif i % 40 == 23:
+            op = op_join_temporaries
         ctx.replay_info = {"shard": ctx.shard, "nshards": ctx.nshards, "seed": ctx.seed, "i": i}
         try:
             op(ctx, rng)
@@ -451,6 +502,6 @@ def replay(ctx, case):
 
 def inconclusive(merged, tier):
     c = merged["counters"]
-    need = ["op_add", "op_sum", "op_mul", "op_join", "op_div", "op_div_n_greater_than_len", "op_mismatch", "parameter_errors_observed",
+    need = ["op_add", "op_sum", "op_mul", "op_join", "op_join_many", "op_join_temporaries", "op_div", "op_div_n_greater_than_len", "op_mismatch", "parameter_errors_observed",
             "op_eq", "op_make_silence", "op_construct_partial", "op_assignment", "op_tree", "optimised_interpreter_runs", "checksum_colliding_pairs_compared", "op_div_repeated_after_caller_mutated_result", "repo_tests_region_equalities_checked"]
     return [f"monitor never observed {k}" for k in need if c.get(k, 0) == 0]
